@@ -1,0 +1,5 @@
+//go:build !verif
+
+package hsms
+
+func verifItem(pos int, formatCode int, lengthBytes int, length int) {}
